@@ -29,6 +29,15 @@ def declares_set_events(sc: dict, i: int) -> bool:
     return bool(s.get("set_events", h(sc.get("beh_seed", 0), s.get("name", i), "set_events") % 3 == 0))
 
 
+def earlier_initev_call(sc: dict, i: int):
+    """For a third of the simulators with an initial event the user first set another (later) initial event and then changed their
+    mind: set_initial_event REPLACES the initial schedule, the last call wins.  Part of the scenario (derived from the seed)."""
+    s = sc["sims"][i]
+    if s.get("init_ev") is None or h(sc.get("beh_seed", 0), s.get("name", i), "initev2") % 3 != 0:
+        return None
+    return s["init_ev"] + 1 + h(sc.get("beh_seed", 0), s.get("name", i), "initev3") % 3
+
+
 def meta_for(typ: str, api: str | None = None, set_events: bool = False) -> dict:
     """api: an older API version the simulator reports (mosaik then talks to it through its adapters: no max_advance in
     step(), no setup_done() below 2.2); the explicitly reported type is respected whatever the version."""
@@ -216,6 +225,8 @@ def build_from(sc: dict):
             world.connect(ents[c["src"]][c["seid"]], ents[c["dst"]][c["deid"]], *call["pairs"], **kw)
         for i, s in enumerate(sims):
             if s.get("init_ev") is not None:
+                if earlier_initev_call(sc, i) is not None:
+                    world.set_initial_event(f"S{i}", earlier_initev_call(sc, i))      # overridden by the next call: the last one wins
                 world.set_initial_event(f"S{i}", s["init_ev"])
     return build
 
@@ -346,6 +357,8 @@ def build_lines(sc):
                      f"{c['ts']} {int(c['weak'])} " + (f"1 {c['sattr']} {900000 + ci}" if c["init"] else "0"))
     for i, s in enumerate(sc["sims"]):
         if s.get("init_ev") is not None:
+            if earlier_initev_call(sc, i) is not None:
+                lines.append(f"w.initev {i} {earlier_initev_call(sc, i)}")
             lines.append(f"w.initev {i} {s['init_ev']}")
     return lines
 
